@@ -189,6 +189,21 @@ def handle1 (req : Json) : Except String Json := do
         Json.arr #[ofList ofInt p.x.1, ofList ofInt p.x.2, ratToJson p.y, ratToJson p.lo, ratToJson p.hi]) l) d
     pure (obj [("model", exc out (plotContrast r sel1 sel2 pc x span strX xord mode ci errevery kind)),
                ("spec", exc out (plotContrastS r sel1 sel2 pc x span strX xord mode ci errevery kind))])
+  | "pysort" =>
+    let vals ← (← arr (← field req "vals")).mapM (fun (j : Json) => do
+      match j with
+      | .arr #[.str "none"] => pure PyVal.none
+      | .arr #[.str "num", q] => pure (PyVal.num (← ratOfJson q))
+      | .arr #[.str "str", cs] => pure (PyVal.str (← (← arr cs).mapM nat))
+      | .arr #[.str "fset", cs] => pure (PyVal.fset (← (← arr cs).mapM nat))
+      | _ => throw "bad PyVal")
+    let out := fun (l : List PyVal) => ofList (fun (v : PyVal) =>
+      match v with
+      | .none => Json.arr #[Json.str "none"]
+      | .num q => Json.arr #[Json.str "num", ratToJson q]
+      | .str cs => Json.arr #[Json.str "str", ofList ofNat cs]
+      | .fset cs => Json.arr #[Json.str "fset", ofList ofNat cs]) l
+    pure (obj [("model", exc out (pySorted vals))])
   | "complete" =>
     let r ← parseResult (← field req "res")
     let lc ← parseCols (← field req "l")
